@@ -872,6 +872,27 @@ fn run_state<R: BufRead, W: Write>(io: &mut Io<R, W>, head: &[String], idx: &mut
 // ---------------------------------------------------------------------------------------------
 // Lexer monitor
 
+/// Payloads above 1 MiB are reported as `#<len>:<crc32>` instead of their hex text.
+fn payload(bytes: &[u8]) -> String {
+    if bytes.len() > (1 << 20) {
+        let mut table = [0u32; 256];
+        for (i, slot) in table.iter_mut().enumerate() {
+            let mut c = i as u32;
+            for _ in 0..8 {
+                c = if c & 1 != 0 { 0xEDB88320 ^ (c >> 1) } else { c >> 1 };
+            }
+            *slot = c;
+        }
+        let mut crc = 0xFFFF_FFFFu32;
+        for &b in bytes {
+            crc = table[((crc ^ u32::from(b)) & 0xFF) as usize] ^ (crc >> 8);
+        }
+        format!("#{}:{:08x}", bytes.len(), crc ^ 0xFFFF_FFFF)
+    } else {
+        hex_encode(bytes)
+    }
+}
+
 fn token_record(span_mgr: &SpanManager, tok: &Token<'_, '_>, out: &mut String) {
     let (_, s, e) = span_mgr.get_span(tok.span);
     match tok.kind {
@@ -881,7 +902,7 @@ fn token_record(span_mgr: &SpanManager, tok: &Token<'_, '_>, out: &mut String) {
         TokenKind::Simple(k) => write!(out, "S{k:?}:{s}:{e}").unwrap(),
         TokenKind::OtherOp(op) => write!(out, "O:{s}:{e}:{}", hex_encode(op.as_bytes())).unwrap(),
         TokenKind::Ident(id) => {
-            write!(out, "I:{s}:{e}:{}", hex_encode(id.value().as_bytes())).unwrap()
+            write!(out, "I:{s}:{e}:{}", payload(id.value().as_bytes())).unwrap()
         }
         TokenKind::Number(n) => write!(
             out,
@@ -890,8 +911,8 @@ fn token_record(span_mgr: &SpanManager, tok: &Token<'_, '_>, out: &mut String) {
             n.exp
         )
         .unwrap(),
-        TokenKind::String(v) => write!(out, "Q:{s}:{e}:{}", hex_encode(v.as_bytes())).unwrap(),
-        TokenKind::TextBlock(v) => write!(out, "B:{s}:{e}:{}", hex_encode(v.as_bytes())).unwrap(),
+        TokenKind::String(v) => write!(out, "Q:{s}:{e}:{}", payload(v.as_bytes())).unwrap(),
+        TokenKind::TextBlock(v) => write!(out, "B:{s}:{e}:{}", payload(v.as_bytes())).unwrap(),
     }
 }
 
@@ -1166,11 +1187,11 @@ impl Dumper<'_> {
             K::Dollar => self.node("$", e.span),
             K::String(s) => {
                 self.node("str", e.span);
-                write!(self.out, " {}", hex_encode(s.as_bytes())).unwrap();
+                write!(self.out, " {}", payload(s.as_bytes())).unwrap();
             }
             K::TextBlock(s) => {
                 self.node("tb", e.span);
-                write!(self.out, " {}", hex_encode(s.as_bytes())).unwrap();
+                write!(self.out, " {}", payload(s.as_bytes())).unwrap();
             }
             K::Number(n) => {
                 self.node("num", e.span);
